@@ -214,7 +214,7 @@ var (
 	cfgWide   = reentryLimits{"cpu5e7-mem512M", rt.RuntimeContextDef{HardLimits: rt.RuntimeResources{Cpu: 50_000_000, Memory: 512 << 20}}}
 	cfgWideQ  = reentryLimits{"cpu2e7-mem512M", rt.RuntimeContextDef{HardLimits: rt.RuntimeResources{Cpu: 20_000_000, Memory: 512 << 20}}}
 	wideQuick = map[string]bool{"meta__add": true, "meta__index-fn": true, "meta__concat": true, "meta__close": true, "pcall": true, "gsub-callback": true,
-		"coroutine-wrap-nest": true, "meta__tostring": true}
+		"meta__tostring": true, "sort-comparator": true}
 )
 
 var reentryDepths = []int{100, 10000, 100000, 1000000}
